@@ -69,13 +69,19 @@ def hkdf(rep, tier):
 
     seen = {}
 
-    def run_e(ctx):
+    def run_e(ctx, mutable=False):
         ctx.hash_uf = True
         ctx.sym_bytearray = True
         ctx.unwind = nmax
         prk = SymBytes.var("prk", 0, 1024)
         info = SymBytes.var("info", 0, 1024)
         L = SymZ.var("L", 0, 8160)
+        if mutable:
+            # the caller passes bytearrays (the signature allows them): they must be read, never written
+            a_prk, a_info = prk.thawed(), info.thawed()
+            out = h.hkdf_expand(a_prk, a_info, L)
+            ctx.notes.append(("args_after", a_prk.t, a_info.t))
+            return prk, info, L, out
         return prk, info, L, h.hkdf_expand(prk, info, L)
 
     def on_e(pth):
@@ -88,6 +94,9 @@ def hkdf(rep, tier):
             rep.fail("hkdf_expand raised %r for some length <= 8160" % (pth.value,), {"kind": "c16_hkdf", "args": {"L": str(m.eval(z3.Int("L"))) if m else ""}})
             return
         prk, info, L, out = pth.value
+        for nt in [c for c in pth.ctx.notes if c[0] == "args_after"]:
+            g, m = pth.ctx.prove(z3.And(nt[1] == prk.t, nt[2] == info.t), timeout_ms=60000)
+            require(rep, g, "hkdf_expand leaves bytearray arguments PRK and info unchanged", pth.decisions, {"kind": "c16_hkdf", "args": {"bytearray": True}})
         calls = [c for c in pth.ctx.notes if c[0] == "hmac"]
         n = len(calls)
         seen[n] = seen.get(n, 0) + 1
@@ -103,6 +112,8 @@ def hkdf(rep, tier):
         g, m = pth.ctx.prove(z3.And(z3.Length(o.t) == L.t, o.t == z3.SubSeq(uniform, 0, L.t)), timeout_ms=180000)
         require(rep, g, "hkdf_expand N=%d: OKM = first L octets of T(1) || ... || T(N)" % n, pth.decisions, rpm(m))
     core.explore(run_e, on_path=on_e, ctx_kwargs=dict(branch_timeout_ms=60000), max_paths=100)
+    core.explore(lambda ctx: run_e(ctx, True), on_path=on_e, ctx_kwargs=dict(branch_timeout_ms=60000), max_paths=100)
+    rep.bound("PRK and info passed as bytes and as bytearray (mutable shadow: in-place += / extend write through)")
     require(rep, set(k for k in seen if k != "unwind") >= set(range(0, nmax + 1)), "hkdf_expand: paths for N = 0..%d explored (%s)" % (nmax, sorted(map(str, seen))), None, rp)
     rep.bound("blocks N <= %d unrolled; %d longer path(s) cut by the unwinding assertion" % (nmax, seen.get("unwind", 0)))
 
